@@ -70,6 +70,12 @@ func NewAuthorizer(cfg Config) *Authorizer {
 		if name == "" {
 			continue
 		}
+		// Several entries may name the same principal; their rules add up
+		// instead of the last entry silently replacing earlier (deny) rules.
+		if prev, ok := principals[name]; ok {
+			p.Allow = append(append([]Rule(nil), prev.Allow...), p.Allow...)
+			p.Deny = append(append([]Rule(nil), prev.Deny...), p.Deny...)
+		}
 		principals[name] = p
 	}
 	return &Authorizer{
